@@ -1239,6 +1239,10 @@ def instances(tier: str) -> List[Tuple[str, tuple, dict, Callable[..., Callable[
     I += [("aquarium", (2, 3, [[(0, 0), (1, 0), (1, 1)], [(0, 1), (0, 2), (1, 2)]], [-1, -1], [-1, -1, -1]), {}, rule_aquarium),
           ("aquarium", (2, 3, [[(0, 0), (1, 0), (1, 1), (1, 2), (0, 2)], [(0, 1)]], [-1, -1], [-1, -1, -1]), {}, rule_aquarium),
           ("aquarium", (3, 2, [[(0, 0), (0, 1)], [(1, 0), (2, 0), (2, 1)], [(1, 1)]], [1, -1, 2], [-1, 2]), {}, rule_aquarium)]
+    # column clues on their own, a zero among them
+    I += [("aquarium", (2, 2, [[(0, 0), (1, 0)], [(0, 1), (1, 1)]], [-1, -1], [1, 0]), {}, rule_aquarium),
+          ("aquarium", (2, 3, [[(0, 0), (0, 1), (0, 2)], [(1, 0), (1, 1), (1, 2)]], [-1, -1], [-1, 0, -1]), {}, rule_aquarium),
+          ("aquarium", (2, 2, [[(0, 0), (1, 0)], [(0, 1), (1, 1)]], [-1, -1], [-1, 2]), {}, rule_aquarium)]
     # the cells of a tank may be listed in any order (a generator merge appends blocks): bottom-up and mixed listings
     I += [("aquarium", (3, 1, [[(2, 0), (1, 0), (0, 0)]], [-1, -1, -1], [-1]), {}, rule_aquarium),
           ("aquarium", (2, 2, [[(1, 0), (0, 0)], [(1, 1), (0, 1)]], [2, 0], [-1, -1]), {}, rule_aquarium),
@@ -1392,6 +1396,9 @@ def instances(tier: str) -> List[Tuple[str, tuple, dict, Callable[..., Callable[
           ("slalom", (3, 3, (2, 2), _ring, [(0, 1, 1, 1, 0), (1, 2, 0, 1, 1), (1, 0, 0, 1, 0)]), {}, rule_slalom),
           ("slalom", (3, 3, (1, 0), _ring, [(0, 1, 1, 1, 0)]), {}, rule_slalom),
           ("slalom", (3, 3, (0, 0), _ring, [(0, 1, 1, 1, 1), (1, 2, 0, 1, 3), (2, 1, 1, 1, 2)]), {}, rule_slalom),
+          # no gate at all: any loop through the origin; the middle one of three gates numbered 1: no solution in either direction
+          ("slalom", (3, 3, (0, 0), [[False] * 3] * 3, []), {}, rule_slalom),
+          ("slalom", (3, 3, (0, 0), _ring, [(0, 1, 1, 1, 0), (1, 2, 0, 1, 1), (2, 1, 1, 1, 0)]), {}, rule_slalom),
           # a gate the loop cannot cross at right angles (bottom row): no solution
           ("slalom", (3, 3, (0, 0), [[False] * 3, [False] * 3, [True, False, False]], [(2, 1, 0, 2, 0)]), {}, rule_slalom)]
     if deep:
